@@ -615,8 +615,12 @@ func (x *Exec) applyContract(fr *Frame, st *State, sp *FuncSpec, sig *types.Sign
 	env.Cur = st
 	for _, e := range sp.Ensures {
 		if mentionsGiven(sp, e.Src) {
-			// stated for the contract's `given` parameters: proved in the callee's unit for all values, not used here
-			continue
+			// stated for the contract's `given` parameters and proved in the callee's unit for ALL their values: used here
+			// only when the calling unit has `given` parameters of the same names, and then at exactly those values
+			// (an instance of the universally quantified clause); otherwise not used
+			if !x.bindCalleeGivens(sp, e.Src, env) {
+				continue
+			}
 		}
 		t := x.evalBool(e.E, env)
 		if os.Getenv("GOVC_DEBUG") != "" && !x.dry {
@@ -750,6 +754,29 @@ func (x *Exec) strContains(a, b Val) (Val, bool) {
 var _ = sort.Strings
 
 var wordRe = regexp.MustCompile(`[A-Za-z_$][A-Za-z0-9_$]*`)
+
+// bindCalleeGivens binds every `given` parameter of the callee that the clause mentions to the calling unit's `given`
+// parameter of the same name; false when one of them has no counterpart.
+func (x *Exec) bindCalleeGivens(sp *FuncSpec, src string, env *SpecEnv) bool {
+	if x.Spec == nil || len(x.Spec.Given) == 0 || x.givenVals == nil {
+		return false
+	}
+	words := map[string]bool{}
+	for _, w := range wordRe.FindAllString(src, -1) {
+		words[w] = true
+	}
+	for _, g := range sp.Given {
+		if !words[g] {
+			continue
+		}
+		t, ok := x.givenVals[g]
+		if !ok {
+			return false
+		}
+		env.Vars[g] = SV{V: VInt{t}, T: types.Typ[types.Int]}
+	}
+	return true
+}
 
 func mentionsGiven(sp *FuncSpec, src string) bool {
 	if len(sp.Given) == 0 {
